@@ -29,6 +29,7 @@ MC_UserParams == <<
 MC_LockNames == {}
 MC_CallerIds == {}
 MC_Files == <<>>
+MC_AliasGroups == {}
 Dump == ~Sampled(Len(hist)) \/ PrintT(ToJson([path |-> hist, op |-> lastOp', out |-> lastOut', sets |-> lastSets', post |-> Abs(obj'),
                        bytes |-> IF lastOp'.op = "Reload" /\ lastOut' # "range_error" THEN WriterModel(obj) ELSE <<>>]))
 =========================================================================
